@@ -302,6 +302,12 @@ fn compute_topic_filter_properties(topic: &str) -> TopicFilterProperties {
         }
     }
 
+    // "$share/" introduces a shared subscription: it must be followed by a share name (at least one
+    // character, no wildcards) and a non-empty topic filter.  Anything else is not an ordinary filter either.
+    if topic.starts_with("$share/") && !properties.is_shared {
+        properties.is_valid = false;
+    }
+
     properties
 }
 
